@@ -5,7 +5,7 @@ Open Scope Z_scope.
 
 (* A Python value.  Floats are exact rationals (IEEE rounding is not modelled;
    the harness only feeds numbers on which binary floating point is exact).
-   Tuples are tuples of integers - enough for "equal but not identical"
+   Tuples are tuples of integers, dicts have string keys and integer values - enough for "equal but not identical"
    values and for group inputs of boolean blocks. *)
 Inductive val :=
 | VUndef                      (* edzed.UNDEF *)
@@ -14,7 +14,9 @@ Inductive val :=
 | VInt (z : Z)
 | VFlt (q : Q)
 | VStr (s : string)
-| VTup (l : list Z).
+| VTup (l : list Z)
+| VMap (l : list (string * Z)).   (* a dict with string keys and integer values; the harness
+                                     writes the items sorted by key (canonical form) *)
 
 Definition num_of (v : val) : option Q :=
   match v with
@@ -31,6 +33,13 @@ Fixpoint zlist_eqb (a b : list Z) : bool :=
   | _, _ => false
   end.
 
+Fixpoint kvlist_eqb (a b : list (string * Z)) : bool :=
+  match a, b with
+  | [], [] => true
+  | (k, x) :: a', (k', y) :: b' => String.eqb k k' && Z.eqb x y && kvlist_eqb a' b'
+  | _, _ => false
+  end.
+
 (* Python's == on this universe. *)
 Definition py_eq (a b : val) : bool :=
   match num_of a, num_of b with
@@ -42,6 +51,7 @@ Definition py_eq (a b : val) : bool :=
     | VNone, VNone => true
     | VStr s, VStr t => String.eqb s t
     | VTup l, VTup m => zlist_eqb l m
+    | VMap l, VMap m => kvlist_eqb l m
     | _, _ => false
     end
   end.
@@ -56,6 +66,7 @@ Definition truthy (v : val) : bool :=
   | VFlt q => negb (Qeq_bool q 0)
   | VStr s => negb (String.eqb s "")
   | VTup l => match l with [] => false | _ => true end
+  | VMap l => match l with [] => false | _ => true end
   end.
 
 Lemma zlist_eqb_refl l : zlist_eqb l l = true.
@@ -69,12 +80,27 @@ Proof.
   - inversion H; subst. now rewrite Z.eqb_refl, zlist_eqb_refl.
 Qed.
 
+Lemma kvlist_eqb_refl l : kvlist_eqb l l = true.
+Proof.
+  induction l as [|[k x] l IH]; simpl; [reflexivity|]. now rewrite String.eqb_refl, Z.eqb_refl, IH.
+Qed.
+
+Lemma kvlist_eqb_eq a b : kvlist_eqb a b = true <-> a = b.
+Proof.
+  revert b; induction a as [|[k x] a IH]; destruct b as [|[k' y] b]; simpl; split; intros H;
+    try reflexivity; try discriminate.
+  - apply andb_true_iff in H as [H1 H3]. apply andb_true_iff in H1 as [H1 H2].
+    apply String.eqb_eq in H1. apply Z.eqb_eq in H2. apply IH in H3. now subst.
+  - inversion H; subst. now rewrite String.eqb_refl, Z.eqb_refl, kvlist_eqb_refl.
+Qed.
+
 Lemma py_eq_refl v : py_eq v v = true.
 Proof.
   destruct v; unfold py_eq; simpl; try reflexivity;
     try (apply Qeq_bool_iff; reflexivity).
   - apply String.eqb_refl.
   - apply zlist_eqb_refl.
+  - apply kvlist_eqb_refl.
 Qed.
 
 Lemma py_eq_sym a b : py_eq a b = py_eq b a.
@@ -90,6 +116,10 @@ Proof.
       * apply zlist_eqb_eq in E. subst. now rewrite zlist_eqb_refl.
       * destruct (zlist_eqb l0 l) eqn:E2; [|reflexivity].
         apply zlist_eqb_eq in E2. subst. now rewrite zlist_eqb_refl in E.
+    + destruct (kvlist_eqb l l0) eqn:E.
+      * apply kvlist_eqb_eq in E. subst. now rewrite kvlist_eqb_refl.
+      * destruct (kvlist_eqb l0 l) eqn:E2; [|reflexivity].
+        apply kvlist_eqb_eq in E2. subst. now rewrite kvlist_eqb_refl in E.
 Qed.
 
 Lemma py_eq_trans a b c : py_eq a b = true -> py_eq b c = true -> py_eq a c = true.
@@ -101,6 +131,7 @@ Proof.
   - destruct a, b; try discriminate; destruct c; try discriminate; try reflexivity.
     + apply String.eqb_eq in H1, H2. subst. apply String.eqb_refl.
     + apply zlist_eqb_eq in H1, H2. subst. apply zlist_eqb_refl.
+    + apply kvlist_eqb_eq in H1, H2. subst. apply kvlist_eqb_refl.
 Qed.
 
 (* Results with a small error enumeration (what the harness maps exceptions to). *)
@@ -160,6 +191,7 @@ Definition val_eqb (a b : val) : bool :=
   | VFlt x, VFlt y => Qeq_bool x y
   | VStr x, VStr y => String.eqb x y
   | VTup x, VTup y => zlist_eqb x y
+  | VMap x, VMap y => kvlist_eqb x y
   | _, _ => false
   end.
 
@@ -216,6 +248,7 @@ Proof.
   - apply Qeq_bool_iff. reflexivity.
   - apply String.eqb_refl.
   - apply zlist_eqb_refl.
+  - apply kvlist_eqb_refl.
 Qed.
 
 Lemma val_eqb_sym a b : val_eqb a b = true -> val_eqb b a = true.
@@ -226,6 +259,7 @@ Proof.
   - apply Qeq_bool_iff in H. apply Qeq_bool_iff. now symmetry.
   - apply String.eqb_eq in H. subst. apply String.eqb_refl.
   - apply zlist_eqb_eq in H. subst. apply zlist_eqb_refl.
+  - apply kvlist_eqb_eq in H. subst. apply kvlist_eqb_refl.
 Qed.
 
 Lemma val_eqb_trans a b c : val_eqb a b = true -> val_eqb b c = true -> val_eqb a c = true.
@@ -237,6 +271,7 @@ Proof.
   - apply Qeq_bool_iff in H1, H2. apply Qeq_bool_iff. now rewrite H1.
   - apply String.eqb_eq in H1, H2. subst. apply String.eqb_refl.
   - apply zlist_eqb_eq in H1, H2. subst. apply zlist_eqb_refl.
+  - apply kvlist_eqb_eq in H1, H2. subst. apply kvlist_eqb_refl.
 Qed.
 
 Lemma oval_eqb_refl a : oval_eqb a a = true.
